@@ -408,7 +408,9 @@ class SymInt:
         return True
 
     def to_bytes(self, length=1, byteorder="big", *, signed=False):
-        length = builtins.int(length.__index__() if isinstance(length, SymInt) else length)
+        if isinstance(length, (builtins.float, SymReal)):
+            raise TypeError("'float' object cannot be interpreted as an integer")
+        length = length.__index__()
         c = _c()
         if signed:
             raise EngineLimit("signed to_bytes")
@@ -692,7 +694,9 @@ class SymBytes:
             return None
         if isinstance(v, SymInt):
             return v.__index__()
-        return builtins.int(v)
+        if isinstance(v, SymReal) or isinstance(v, builtins.float):
+            raise TypeError("slice indices must be integers or None or have an __index__ method")
+        return v.__index__()
 
     def __getitem__(self, k):
         if isinstance(k, slice):
@@ -867,6 +871,8 @@ class IntShim(metaclass=_Meta):
             return x.to_bytes(length, byteorder, signed=signed)
         if isinstance(length, SymInt):
             length = length.__index__()
+        if isinstance(length, SymReal):
+            raise TypeError("'float' object cannot be interpreted as an integer")
         return builtins.int.to_bytes(x, length, byteorder, signed=signed)
 
 
